@@ -18,8 +18,9 @@ mutual
         simp only [toJson, fromJson, norm]; rw [roundTrip_safe_auxL xs (by simpa [Safe] using h)]
     | .ndarray xs, h => by
         simp only [toJson, fromJson, norm]; rw [roundTrip_safe_auxL xs (by simpa [Safe] using h)]
-    | .npInt64 _, h => by simp [Safe] at h
-    | .npBool _, h => by simp [Safe] at h
+    | .npInt64 _, _ => rfl
+    | .npBool _, _ => rfl
+    | .npFloat32 _, _ => rfl
     | .other _, h => by simp [Safe] at h
   theorem roundTrip_safe_auxL : ∀ (xs : PyList), SafeL xs → fromJsonL (toJsonL xs) = normL xs
     | .nil, _ => rfl
@@ -39,6 +40,7 @@ mutual
     | .none => rfl
     | .npInt64 _ => rfl
     | .npBool _ => rfl
+    | .npFloat32 _ => rfl
     | .other _ => rfl
     | .list xs => by simp only [norm]; rw [norm_idemL xs]
     | .tuple xs => by simp only [norm]; rw [norm_idemL xs]
@@ -58,6 +60,7 @@ mutual
     | .none => by simp [safeB, Safe]
     | .npInt64 _ => by simp [safeB, Safe]
     | .npBool _ => by simp [safeB, Safe]
+    | .npFloat32 _ => by simp [safeB, Safe]
     | .other _ => by simp [safeB, Safe]
     | .list xs => by simp only [safeB, Safe]; exact safeLB_iff xs
     | .tuple xs => by simp only [safeB, Safe]; exact safeLB_iff xs
@@ -82,7 +85,7 @@ mutual
   def Plain : PyVal → Prop
     | .pyInt _ | .pyBool _ | .pyFloat _ | .str _ | .none => True
     | .list xs => PlainL xs
-    | .npFloat64 _ | .npInt64 _ | .npBool _ | .other _ | .tuple _ | .ndarray _ => False
+    | .npFloat64 _ | .npInt64 _ | .npBool _ | .npFloat32 _ | .other _ | .tuple _ | .ndarray _ => False
   def PlainL : PyList → Prop
     | .nil => True
     | .cons v vs => Plain v ∧ PlainL vs
@@ -114,6 +117,7 @@ mutual
     | .npFloat64 _, h => by simp [Plain] at h
     | .npInt64 _, h => by simp [Plain] at h
     | .npBool _, h => by simp [Plain] at h
+    | .npFloat32 _, h => by simp [Plain] at h
     | .other _, h => by simp [Plain] at h
     | .tuple _, h => by simp [Plain] at h
     | .ndarray _, h => by simp [Plain] at h
